@@ -12,9 +12,6 @@ Open Scope string_scope.
 Open Scope list_scope.
 Open Scope Z_scope.
 
-Definition units_bin (sb : submission) : list bytes := map fst (sb_msgs sb).
-Definition units_asc (sb : submission) : list bytes := sb_lines sb.
-
 (* the model's search for the receive order of the writer goroutine *)
 Fixpoint find_order (fuel : nat) (units : submission -> list bytes) (obs : list bytes)
          (subs : list (list submission)) : option (list submission) :=
@@ -50,16 +47,10 @@ Fixpoint find_order (fuel : nat) (units : submission -> list bytes) (obs : list 
 
 Definition total_subs (s : scn) : nat := fold_left (fun n l => (n + List.length l)%nat) (s_subs s) O.
 
-Definition marshal_table (s : scn) : table := List.concat (map (fun l => List.concat (map sb_msgs l)) (s_subs s)).
-Definition enc_lookup (s : scn) (msgs : list bytes) : list bytes :=
-  match find (fun sb => list_eqb bytes_eqb (units_bin sb) msgs) (List.concat (s_subs s)) with
-  | Some sb => sb_lines sb
-  | None => [[0]]
-  end.
-
 Definition c09_view (s : scn) : option (bool * bytes) :=
-  match conn_view s 0, obs_peers (s_obs s) with
-  | Some v, (_, recv, _, _) :: _ => Some (cv_bin v, recv)
+  let k := Z.to_nat (Z.max 0 (s_subconn s)) in
+  match conn_view s k, nth_error (obs_peers (s_obs s)) k with
+  | Some v, Some (_, recv, _, _) => Some (cv_bin v, recv)
   | _, _ => None
   end.
 
@@ -69,7 +60,7 @@ Definition judge (s : scn) : sexp :=
   match c09_view s with
   | None => mism "content" "no-connection" []
   | Some (bin, recv) =>
-    let pre := if bin then probe_expected else probe_expected ++ [10] in
+    let pre := (if bin then probe_expected else probe_expected ++ [10]) ++ s_cbwrite s in
     match split_tr (zlen pre) recv [] with
     | None => spec_fail "c09-prefix" 0 []
     | Some (p, tail) =>
@@ -101,8 +92,8 @@ Definition judge (s : scn) : sexp :=
         else
           (* model *)
           let order := match find_order fuel units ou (s_subs s) with Some o => o | None => List.concat (s_subs s) end in
-          let w := written bytes (lookup (marshal_table s)) (enc_lookup s) bin (map units_bin order) in
-          match compare_client s (fun i => if i =? 0 then Some w else None) with
+          let w := written_for s bin order in
+          match compare_client s (fun i => if i =? Z.max 0 (s_subconn s) then Some w else None) with
           | Some v => v
           | None => v_ok (match ou with [] => false | _ => true end)
           end
